@@ -19,7 +19,7 @@ LEVEL_TEXT = ("Generated filter-free queries (all selector kinds, child/descenda
               "an independent reference evaluator. Sampled, not exhaustive.")
 LEVEL_NOTE = "Trusted: the reference evaluator and parser in vlib/ref (self-test + generator/parser triangulation on every case)."
 
-NAMES = ["a", "b", "c", "d", "e", "0", "1", "-1", "a b", "", "'", "\u00e9", "\U0001F600", "_x", "A1"]
+NAMES = ["a", "b", "c", "d", "e", "0", "1", "-1", "a b", "", "'", "\u00e9", "\U0001F600", "_x", "A1", "\\", "a\\", "\\\\", "\"", "a'b\"", "\\'"]
 
 
 
@@ -65,6 +65,8 @@ def run_shard(spec, shard):
             case["ambient"] = r.choice(lib.AMBIENTS[1:])
         if r.random() < 0.08:
             case["interrupted"] = r.randint(1, 90)
+        if r.random() < 0.08 and not any(k_ in case for k_ in ("interrupted", "ambient")):
+            case["nondet"] = True
         f = examine(case)
         feats = Q.features(ast)
         from vlib.ref import evaluate as ev
@@ -77,7 +79,7 @@ def run_shard(spec, shard):
             locs = [l for l, _ in res]
             if len(set(locs)) < len(locs):
                 classes.add("duplicates-in-result")
-        for k_ in ("interrupted", "ambient", "alias", "exotic"):
+        for k_ in ("interrupted", "ambient", "alias", "exotic", "nondet"):
             if k_ in case:
                 classes.add("variant:" + (k_ if k_ != "interrupted" else "first-application-interrupted-then-reapplied"))
         shard.case(key=(text, doc), nontrivial=nt, classes=classes,
